@@ -57,6 +57,7 @@ def decide_case(case, pf, budget):
     for ob in case.obligations:
         groups.setdefault(ob['group'], []).append(ob)
     reps = {}     # (group kind) -> list of (lane, formula) proven unsat by a solver
+    unknown_by_kind = {}
     for gname, obs in groups.items():
         live = []
         for ob in obs:
@@ -75,14 +76,21 @@ def decide_case(case, pf, budget):
         # one cheap attempt at the whole group
         if len(live) > 1:
             disj = z3.Or(*[sym.bz(ob['formula']) for ob in live])
-            r, m, by = pf.check(case.assumptions, disj, z3_ms=budget['group_ms'])
+            r, m, dt = solve.z3_check(case.assumptions, disj, budget['group_ms'])     # z3 only: this is just a shortcut
+            pf.stats.calls['z3'] += 1
+            pf.stats.time['z3'] += dt
             if r == 'unsat':
+                pf.stats.decided_by['z3'] += len(live)
                 out['discharged'] += len(live)
                 for ob in live:
                     out['nontrivial_ids'].add(ob['formula'].get_id())
                 continue
         gkind = gname.split(':', 1)[1]
         for ob in live:
+            if unknown_by_kind.get(ob['kind'], 0) >= budget.get('max_unknown', 1000):
+                # same code shape in every lane and path: do not burn the whole budget on obligations that will not be decided
+                out['undecided'].append({'kind': ob['kind'], 'desc': ob['desc'], 'note': 'not attempted after %d undecided obligations of this class' % budget['max_unknown']})
+                continue
             f = sym.bz(ob['formula'])
             out['nontrivial_ids'].add(f.get_id())
             lane = ob.get('lane')
@@ -99,7 +107,68 @@ def decide_case(case, pf, budget):
                         break
             if done:
                 continue
-            r, m, by = pf.check(case.assumptions, f)
+            r = 'unknown'
+            ob0 = ob
+            if ob.get('alt'):
+                # two equivalent oracles (e.g. bvudiv and textbook long division): matching either discharges the obligation.
+                # The primary one gets a short z3-only attempt (it is decided syntactically when the code really divides).
+                if out.get('primary_hopeless'):
+                    r, m, by = 'unknown', None, 'none'
+                else:
+                    r, m, dt = solve.z3_check(case.assumptions, f, budget.get('alt_first_ms', 2500))
+                    pf.stats.calls['z3'] += 1
+                    pf.stats.time['z3'] += dt
+                    by = 'z3'
+                    if r == 'unknown':
+                        out['primary_hopeless'] = True       # same code shape for every lane and path of this wrapper
+                if r == 'unknown':
+                    # try the alternatives: first any that is closed syntactically, else continue with the first one
+                    out['alt_oracle_used'] = out.get('alt_oracle_used', 0) + 1
+                    chosen = None
+                    for al in ob['alt']:
+                        fa = sym.bz(al['formula'])
+                        if solve.is_trivially_false(fa):
+                            r, m, by = 'unsat', None, 'trivial'
+                            break
+                        ra, ma, dta = solve.z3_check(case.assumptions, fa, 1500) if len(ob['alt']) > 1 else ('unknown', None, 0)
+                        pf.stats.time['z3'] += dta
+                        if ra == 'unsat':
+                            r, m, by = 'unsat', None, 'z3'
+                            pf.stats.decided_by['z3'] += 1
+                            break
+                        if chosen is None:
+                            chosen = al
+                    if r == 'unknown' and chosen is not None:
+                        ob = dict(ob, core=chosen['core'], formula=chosen['formula'])
+                        f = sym.bz(ob['formula'])
+                elif r == 'unsat':
+                    pf.stats.decided_by['z3'] += 1
+            if r == 'unknown' and ob.get('pc_list') and len(ob['pc_list']) > 2 and not isinstance(ob.get('core'), bool):
+                # deep in a loop: first try the cheap proof by generalisation at the loop exit
+                if generalised_unsat(case, ob, pf, budget):
+                    r, m, by = 'unsat', None, 'generalisation'
+                    out['by_generalisation'] = out.get('by_generalisation', 0) + 1
+            if r == 'unknown' and ob.get('alt') and not out.get('uf_hopeless'):
+                hit = False
+                for cand in [sym.bz(ob0['formula'])] + [sym.bz(al['formula']) for al in ob0['alt']]:
+                    try:
+                        g, nd = uf_abstract_divisions(cand)
+                    except Exception:
+                        nd = 0
+                    if nd < 2:
+                        continue
+                    ru, mu, dtu = solve.z3_check(case.assumptions, g, budget.get('z3_ms', 8000))
+                    pf.stats.calls['z3'] += 1
+                    pf.stats.time['z3'] += dtu
+                    if ru == 'unsat':
+                        r, m, by = 'unsat', None, 'uf-abstraction'
+                        out['by_uf_abstraction'] = out.get('by_uf_abstraction', 0) + 1
+                        hit = True
+                        break
+                if not hit:
+                    out['uf_hopeless'] = True
+            if r == 'unknown':
+                r, m, by = pf.check(case.assumptions, f)
             if r == 'unsat':
                 out['discharged'] += 1
                 if lane is not None:
@@ -110,7 +179,118 @@ def decide_case(case, pf, budget):
                 break
             else:
                 out['undecided'].append({'kind': ob['kind'], 'desc': ob['desc']})
+                unknown_by_kind[ob['kind']] = unknown_by_kind.get(ob['kind'], 0) + 1
     return out
+
+
+def dag_size(t, cache):
+    i = t.get_id()
+    if i in cache:
+        return cache[i]
+    seen = set()
+    st = [t]
+    while st:
+        x = st.pop()
+        xi = x.get_id()
+        if xi in seen:
+            continue
+        seen.add(xi)
+        st.extend(x.children())
+    cache[i] = len(seen)
+    return cache[i]
+
+
+def generalised_unsat(case, ob, pf, budget):
+    """Proof by generalisation (sound for unsat only): keep just the last path-condition conjunct (the loop exit test) and
+    replace every large bit-vector subterm that the exit test shares with the assertion by a fresh variable.  If the
+    generalised formula is unsat, so is the original (the original is an instance with a stronger path condition)."""
+    # raw terms on purpose: z3's simplifier moves addends across equalities and would destroy the shared subterms
+    last = sym.bz(ob['pc_list'][-1])
+    core = sym.bz(ob['core'])
+    ids = set()
+    st = [last]
+    while st:
+        x = st.pop()
+        xi = x.get_id()
+        if xi in ids:
+            continue
+        ids.add(xi)
+        st.extend(x.children())
+    cache = {}
+    cuts = {}
+    seen = set()
+    st = [core]
+    while st:
+        x = st.pop()
+        xi = x.get_id()
+        if xi in seen:
+            continue
+        seen.add(xi)
+        if xi in ids and z3.is_bv(x) and not z3.is_bv_value(x) and x.num_args() > 0 and dag_size(x, cache) >= 24:
+            cuts[xi] = x
+            continue
+        st.extend(x.children())
+    if not cuts:
+        return False
+    pairs = [(t, z3.BitVec('cut!%d' % k, t.size())) for k, t in enumerate(cuts.values())]
+    f = z3.substitute(z3.And(last, core), *pairs)
+    r, m, dt = solve.z3_check(case.assumptions, f, budget.get('gen_ms', 4000))
+    pf.stats.calls['z3'] += 1
+    pf.stats.time['z3'] += dt
+    return r == 'unsat'
+
+
+DIV_KINDS = {}
+
+
+def _div_kinds():
+    if not DIV_KINDS:
+        for nm in ('Z3_OP_BUDIV', 'Z3_OP_BUREM', 'Z3_OP_BSDIV', 'Z3_OP_BSREM', 'Z3_OP_BUDIV_I', 'Z3_OP_BUREM_I', 'Z3_OP_BSDIV_I', 'Z3_OP_BSREM_I'):
+            k = getattr(z3, nm, None)
+            if k is not None:
+                DIV_KINDS[k] = nm[6:].replace('_I', '').lower()
+    return DIV_KINDS
+
+
+def uf_abstract_divisions(f):
+    """replace every bit-vector division / remainder by an uninterpreted function of its operands (sound for unsat: whatever
+    holds for every interpretation holds for the real divider).  Decides 'the code really divides' cases by congruence."""
+    kinds = _div_kinds()
+    memo = {}
+    ufs = {}
+    found = [0]
+
+    def rec(t):
+        i = t.get_id()
+        if i in memo:
+            return memo[i]
+        ch = t.children()
+        if not ch:
+            memo[i] = t
+            return t
+        nch = [rec(c) for c in ch]
+        k = t.decl().kind()
+        if k in kinds:
+            w = t.size()
+            key = (kinds[k], w)
+            if key not in ufs:
+                ufs[key] = z3.Function('%s_%d' % key, z3.BitVecSort(w), z3.BitVecSort(w), z3.BitVecSort(w))
+            r = ufs[key](nch[0], nch[1])
+            found[0] += 1
+        elif all(a.get_id() == b.get_id() for a, b in zip(ch, nch)):
+            r = t
+        else:
+            r = t.decl()(*nch)
+        memo[i] = r
+        return r
+    import sys
+    old = sys.getrecursionlimit()
+    sys.setrecursionlimit(max(old, 20000))
+    try:
+        g = rec(f)
+    finally:
+        sys.setrecursionlimit(old)
+    return g, found[0]
 
 
 def vacuity_ok(case, pf):
@@ -281,7 +461,11 @@ def _worker(conn, fn_name, mem_gb):
             return
         idx, task = msg
         try:
-            r = fn(task)
+            f = fn
+            if isinstance(task, dict) and task.get('handler'):
+                hm, hf = task['handler'].rsplit('.', 1)
+                f = getattr(importlib.import_module(hm), hf)
+            r = f(task)
         except BaseException as e:
             r = {'name': task.get('meta', {}).get('name', '?'), 'status': 'crash', 'detail': repr(e)}
         conn.send((idx, r))
